@@ -7,19 +7,45 @@
 #include <thread>
 #include <atomic>
 #include <cstdio>
+#include <cstring>
+#include <vector>
 using namespace FIX8;
 static volatile unsigned counter; static volatile int in_cs; static std::atomic<int> overlap{0};
+static bool pipe_mode; static std::vector<Message*> processed_seq;
 bool FIX8::Session::send_process(Message *msg)
 {
+  if (pipe_mode) { processed_seq.push_back(msg); return true; }
   if (in_cs) overlap = 1;
   in_cs = 1; unsigned t = counter; for (volatile int i = 0; i < 20; ++i) ; counter = t + 1; in_cs = 0;
   return true;
 }
 struct RSession : Session { RSession(const F8MetaCntx& c) : Session(c) {} bool handle_application(const unsigned, const Message *&) override { return true; } };
-int main()
+// pipelined model: the real writer loop in its own thread, real queue; producers write single messages and 2-message batches, then the sentinel
+static int pipe_run(RSession *sess, Poco::Net::StreamSocket *sock)
+{
+  pipe_mode = true;
+  FIXWriter *w = new FIXWriter(sock, *sess, pm_pipeline);
+  f8_thread_cancellation_token tok;
+  std::thread wr([&]{ w->execute(tok); });
+  const int N = 20000; std::vector<Message*> a_msgs, b_msgs;
+  for (int i = 0; i < N; ++i) { a_msgs.push_back(new UTEST::Heartbeat); b_msgs.push_back(new UTEST::Heartbeat); }
+  std::thread a([&]{ for (int i = 0; i < N; ++i) w->write(a_msgs[i], true); });
+  std::thread b([&]{ for (int i = 0; i + 1 < N; i += 2) { std::vector<Message*> v{b_msgs[i], b_msgs[i + 1]}; w->write_batch(v, true); } });
+  a.join(); b.join();
+  w->_started = true; w->stop();                   // the real stop(): pushes the sentinel
+  wr.join();
+  size_t ia = 0, ib = 0; int bad = 0;
+  for (Message *m : processed_seq) { if (ia < a_msgs.size() && m == a_msgs[ia]) ++ia; else if (ib < b_msgs.size() && m == b_msgs[ib]) ++ib; else ++bad; }
+  printf("pipelined: pushed %d, processed %zu, out-of-order/unknown %d\n", 2 * N, processed_seq.size(), bad);
+  bool v = bad || processed_seq.size() != size_t(2 * N);
+  printf("%s\n", v ? "VIOLATED: messages queued before the sentinel were not all processed exactly once in order" : "ok");
+  fflush(stdout); _exit(v ? 1 : 0);
+}
+int main(int argc, char **argv)
 {
   RSession *sess = new RSession(UTEST::ctx());
   Poco::Net::StreamSocket *sock = new Poco::Net::StreamSocket;
+  if (argc > 1 && !strcmp(argv[1], "pipe")) return pipe_run(sess, sock);
   FIXWriter *w = new FIXWriter(sock, *sess, pm_thread);
   const int rounds = 200000; alignas(16) static char raw[4][sizeof(Message)];
   Message *m[4]; for (int i = 0; i < 4; ++i) m[i] = reinterpret_cast<Message*>(raw[i]);
